@@ -208,6 +208,10 @@ class C06Yields(Monitor):
             if dry != e_dry:
                 ctx.violate("dry-yield", t, observed=dry, expected=e_dry)
             yldwc = float(crop.YldWC)
+            ukw = (ctx.spec.get("crop") or {}).get("kw") or {}
+            if "YldWC" in ukw:
+                yldwc = float(ukw["YldWC"])          # the dry-matter percentage the USER configured
+                ctx.hit("user_configured_yldwc")
             e_fresh = (dry / (yldwc / 100)) if yldwc != 0 else None
             if e_fresh is None or not math.isfinite(fresh):
                 if dry > 0 or not math.isfinite(fresh):
